@@ -140,7 +140,7 @@ func (x *setInst) Do(c Call) []any {
 	case "New":
 		x.s = newSet(x.kind, x.cmpF, append([]int(nil), c.Vs...)...)
 	case "FromJSON":
-		return []any{s.(jsonable).FromJSON(mustJSON(ints(c.Vs))) == nil}
+		return []any{s.(jsonable).FromJSON(loadText(c, mustJSON(ints(c.Vs)))) == nil}
 	default:
 		die("set: unknown op %s", c.Op)
 	}
@@ -187,7 +187,7 @@ func (u *setUniverse) Calls(x Inst) []Call {
 	if isDflt(u.cmp) {
 		return cs
 	}
-	cs = append(cs, Call{Op: "FromJSON", Vs: []int{}}, Call{Op: "FromJSON", Vs: []int{2, 0, 2, 1}},
+	cs = append(cs, Call{Op: "FromJSON", Vs: []int{}}, Call{Op: "FromJSON", Vs: []int{1, 0}, S: "bad"}, Call{Op: "FromJSON", Vs: []int{2, 0, 2, 1}},
 		// long argument lists: members, non-members and duplicates mixed
 		Call{Op: "Remove", Vs: []int{1, 3, 100, 101, 102, 0, 104, 105, 1}}, Call{Op: "Add", Vs: []int{3, 0, 3, 1, 2, 1, 0, 2, 3, 3}},
 		Call{Op: "Contains", Vs: []int{0, 0, 0, 0, 0, 0, 0, 0}})
@@ -649,6 +649,7 @@ func (x *heapInst) Do(c Call) []any {
 		}
 	case "FromJSON":
 		b, _ := json.Marshal(pesOf(c))
+		b = loadText(c, b)
 		var err error
 		if x.h != nil {
 			err = x.h.FromJSON(b)
@@ -731,7 +732,8 @@ func (u *heapUniverse) Calls(x Inst) []Call {
 		Call{Op: "FromJSON", Vs: []int{u.elems[n-1], u.elems[0]}},
 		Call{Op: "FromJSON", Vs: []int{u.elems[0], u.elems[n-1]}},
 		Call{Op: "FromJSON", Vs: []int{u.elems[n-1], u.elems[n/2], u.elems[0]}},
-		Call{Op: "FromJSON", Vs: []int{u.elems[n/2], u.elems[n-1], u.elems[0], u.elems[1]}})
+		Call{Op: "FromJSON", Vs: []int{u.elems[n/2], u.elems[n-1], u.elems[0], u.elems[1]}},
+		Call{Op: "FromJSON", Vs: []int{u.elems[n-1], u.elems[0]}, S: "bad"})
 	return cs
 }
 
